@@ -27,7 +27,7 @@ def zero(d, t):
 def emit_types(d):
     out = []
     if any(p.get('alias_error') for p in d['providers']):
-        out.append('type Failure%s = error\n' % '')
+        out.append('type %s = error\n' % d.get('err_alias', 'Failure'))
     for name, ty in sorted(d['types'].items()):
         form = ty['form']
         if form == 'iface':
@@ -54,7 +54,7 @@ def emit_provider_fn(d, p):
         terms.append('rt.CtxTerm(a%d)' % i if r == 'ctx' else 'rt.TermOf(a%d)' % i)
     results = [texpr(d, g[0]) for g in p['provides']]
     if p['fallible']:
-        results.append('Failure' if p.get('alias_error') else 'error')
+        results.append(d.get('err_alias', 'Failure') if p.get('alias_error') else 'error')
     rs = ', '.join(results)
     if len(results) > 1:
         rs = '(' + rs + ')'
